@@ -227,3 +227,33 @@ def types_at_several_loop_positions(defn):
                     walk(b, path)
     walk(defn, ())
     return {t for t, ps in pos.items() if len(ps) > 1}
+
+
+def joined_name_maps(seps=(",", " ", "", "_", "|", "->")):
+    """wave 14: event type names of which one is the joined spelling of two
+    others (or of one other, twice) for the separators code commonly joins
+    with; the joined name stands before, between and after its parts"""
+    out = {}
+    for k, sep in enumerate(seps):
+        a, b = "read", "write"
+        ab, ba, aa = a + sep + b, b + sep + a, a + sep + a
+        for v, names in enumerate(([a, b, ab, ba], [ab, a, b, ba],
+                                   [a, ab, b, aa], ["s", a, aa, b])):
+            m = dict(zip("ABCD", names))
+            m.update(E="e", F="f", G="g", H="h")
+            out[f"joined{k}.{v}"] = m
+    return out
+
+
+def name_order_variants(defn):
+    """wave 14: the definition under every adjacent transposition of the
+    alphabetical order of its event names, and under the reversed order (the
+    canonical naming is depth-first, so the events of one branch are always
+    alphabetical neighbours; here they are not)"""
+    names = sorted(dsl.event_names(defn))
+    out = []
+    for i in range(len(names) - 1):
+        m = {names[i]: names[i + 1], names[i + 1]: names[i]}
+        out.append(dsl.map_names(defn, m))
+    out.append(dsl.map_names(defn, dict(zip(names, reversed(names)))))
+    return out
